@@ -54,8 +54,11 @@ def run(ctx):
     strace = os.path.join(ctx.tmp, "swap.ndjson")
     vlib.run_driver(ctx, binary, ["-mode", "hist", "-cases", cases, "-trace", htrace, "-reps", "60" if q else "200"], timeout=1800)
     vlib.run_driver(ctx, binary, ["-mode", "swap", "-trace", strace, "-reps", "300" if q else "3000", "-lookers", "6"], timeout=1800)
+    # the same through the cluster manager: lookups by cluster name vs host replacement/append/removal and cluster updates
+    mtrace = os.path.join(ctx.tmp, "mswap.ndjson")
+    vlib.run_driver(ctx, binary, ["-mode", "mswap", "-trace", mtrace, "-reps", "240" if q else "2400", "-lookers", "6"], timeout=1800)
 
-    for mod, trace, part in (("LBChoiceTrace", htrace, "hist"), ("SnapshotTrace", strace, "swap")):
+    for mod, trace, part in (("LBChoiceTrace", htrace, "hist"), ("SnapshotTrace", strace, "swap"), ("SnapshotTrace", mtrace, "mswap")):
         evs = vlib.read_jsonl(trace)
         v = vlib.validate_trace(ctx, "cluster", mod, mod + ".cfg", trace, timeout=2400)
         ctx.cov["traces_validated_against_impl"] += sum(1 for e in evs if e["ev"] == "new")
